@@ -454,7 +454,7 @@ Proof.
   rewrite <- app_assoc. cbn [app].
   rewrite decode_full_app in H. rewrite decode_full_app.
   destruct (decode_full (rev SP) 0 0 (rev D ++ dl :: extra)) as [[[o1 i1] c1] d1] eqn:E0.
-  rewrite E0 in H. cbn [decode_full] in *.
+  cbn [decode_full] in *.
   destruct (decode_span (Z.to_nat l) (i1 + o) c1 d1) as [[[out i'] c'] d'] eqn:E.
   inversion H; subst. replace (Z.to_nat (l + 1)) with (Datatypes.S (Z.to_nat l)) by lia.
   rewrite (decode_span_snoc _ _ _ _ _ _ _ _ _ E). rewrite !app_nil_r, app_assoc. reflexivity.
@@ -506,5 +506,769 @@ Proof.
     destruct (IH (append_delta st 0) (flat ++ [(pos, 0)]) (pos + 1) G1 ltac:(rewrite P1; lia) D1) as (D2 & G2 & P2 & N2).
     rewrite <- app_assoc in D2. cbn [app] in D2.
     replace (pos + Z.of_nat (S n)) with (pos + 1 + Z.of_nat n) by lia.
-    repeat split; try assumption; try lia. congruence.
+    repeat split; try assumption; try lia.
+Qed.
+
+(* =========================================================== native: the encoder loop *)
+Lemma lookup_int_in k (m : imap) : In k (map fst m) -> In (k, lookup_int k m) m.
+Proof.
+  induction m as [|[a v] r IH]; cbn [map fst In lookup_int]; [tauto|]. intros [H|H].
+  - subst. rewrite Z.eqb_refl. left; reflexivity.
+  - destruct (Z.eqb_spec a k); [subst; left; reflexivity|right; apply IH; exact H].
+Qed.
+
+Lemma lookup_int_nodup k v (m : imap) : NoDup (map fst m) -> In (k, v) m -> lookup_int k m = v.
+Proof.
+  induction m as [|[a w] r IH]; cbn [map fst In lookup_int]; [tauto|]. intros Hn [H|H].
+  - inversion H; subst. rewrite Z.eqb_refl. reflexivity.
+  - inversion Hn as [|? ? Hna Hnr]; subst. destruct (Z.eqb_spec a k).
+    + subst. exfalso. apply Hna. change k with (fst (k, v)). apply in_map. exact H.
+    + apply IH; assumption.
+Qed.
+
+Lemma idelta_exact (first : bool) pos i : int64 i ->
+  (first = true -> pos = 0) -> (first = false -> -2147483647 <= pos <= i) ->
+  (max_int32 <? wrap64 (i - wrap64 pos)) || (wrap64 (i - wrap64 pos) <? min_int32) = false ->
+  wrap64 pos = pos /\ wrap32 (wrap64 (i - wrap64 pos)) = i - pos /\ min_int32 <= i - pos <= max_int32 /\
+  (first = false -> 0 <= i - pos).
+Proof.
+  intros Hi Hf Hnf Hv. unfold max_int32, min_int32 in *.
+  assert (Wp : wrap64 pos = pos).
+  { apply wrap64_id. destruct first; [rewrite (Hf eq_refl); lia|specialize (Hnf eq_refl); lia]. }
+  rewrite Wp in *. apply orb_false_iff in Hv. destruct Hv as [H1 H2].
+  apply Z.ltb_ge in H1. apply Z.ltb_ge in H2.
+  destruct (wrap64_spec (i - pos)) as (k & E & B).
+  assert (Ex : wrap64 (i - pos) = i - pos).
+  { destruct first; [rewrite (Hf eq_refl) in *; lia|specialize (Hnf eq_refl); lia]. }
+  rewrite Ex in *. split; [reflexivity|]. split; [apply wrap32_id; lia|]. split; [lia|].
+  intros F. specialize (Hnf F). lia.
+Qed.
+
+Lemma mb_step_inv (m : imap) (first : bool) st flat pos i :
+  (forall k v, In (k, v) m -> int64 v) -> In i (map fst m) -> int64 i ->
+  (first = true -> pos = 0) ->
+  (first = false -> good_spans (mb_spans st) /\ -2147483647 <= pos <= i) ->
+  mb_next st = wrap64 pos -> int64 (mb_prev st) ->
+  Dec (mb_spans st) (mb_deltas st) flat pos (mb_prev st) ->
+  (max_int32 <? wrap64 (i - mb_next st)) || (wrap64 (i - mb_next st) <? min_int32) = false ->
+  exists gap,
+    Dec (mb_spans (mb_step m first st i)) (mb_deltas (mb_step m first st i))
+        (flat ++ gap ++ [(i, lookup_int i m)]) (i + 1) (mb_prev (mb_step m first st i)) /\
+    good_spans (mb_spans (mb_step m first st i)) /\ mb_next (mb_step m first st i) = wrap64 (i + 1) /\
+    int64 (mb_prev (mb_step m first st i)) /\ -2147483647 <= i + 1 /\
+    (forall p, In p gap -> pos <= fst p < i /\ snd p = 0) /\ Sorted Z.lt (map fst gap) /\
+    (first = true -> gap = []).
+Proof.
+  intros Hv Hin Hi Hf Hnf Hnext Hprev HD Hval. rewrite Hnext in Hval.
+  assert (Hnf' : first = false -> -2147483647 <= pos <= i) by (intros F; apply Hnf; exact F).
+  destruct (idelta_exact first pos i Hi Hf Hnf' Hval) as (Wp & Wd & Hr & Hnn).
+  unfold max_int32, min_int32 in Hr.
+  assert (Hc : int64 (lookup_int i m)) by (apply (Hv i), lookup_int_in; exact Hin).
+  unfold mb_step. cbv zeta.
+  replace (wrap32 (wrap64 (i - mb_next st))) with (i - pos) by (rewrite Hnext; symmetry; exact Wd).
+  destruct (first || (2 <? i - pos)) eqn:Enew.
+  - (* a new span *)
+    pose proof (Dec_new_span (mb_spans st) (mb_deltas st) flat pos (mb_prev st) (i - pos) HD) as D0.
+    replace (pos + (i - pos)) with i in D0 by lia.
+    set (st1 := mkMb ((i - pos, 0) :: mb_spans st) (mb_deltas st) (mb_prev st) (mb_next st)).
+    destruct (append_delta_dec st1 (lookup_int i m) flat i ltac:(cbn; lia) Hc D0) as (D1 & G1 & P1 & N1).
+    exists []. cbn [mb_spans mb_deltas mb_prev mb_next app]. rewrite P1.
+    assert (Hlow : -2147483647 <= i + 1).
+    { destruct first; [rewrite (Hf eq_refl) in Hr; lia|specialize (Hnf' eq_refl); lia]. }
+    repeat split; try assumption; try lia; try contradiction. constructor.
+  - (* small gap: fill with empty buckets *)
+    apply orb_false_iff in Enew. destruct Enew as [F E2]. apply Z.ltb_ge in E2.
+    destruct (Hnf F) as [Hg Hpos]. specialize (Hnn F).
+    destruct (append_zeros_dec (Z.to_nat (i - pos)) st flat pos Hg Hprev HD) as (D0 & G0 & P0 & N0).
+    replace (pos + Z.of_nat (Z.to_nat (i - pos))) with i in D0 by lia.
+    set (st1 := append_zeros (Z.to_nat (i - pos)) st) in *.
+    destruct (append_delta_dec st1 (lookup_int i m) _ i G0 Hc D0) as (D1 & G1 & P1 & N1).
+    exists (zeros pos (Z.to_nat (i - pos))). cbn [mb_spans mb_deltas mb_prev mb_next]. rewrite P1.
+    rewrite <- app_assoc in D1.
+    repeat split; try assumption; try lia.
+    + apply zeros_in in H. lia.
+    + apply zeros_in in H. lia.
+    + apply zeros_in in H. lia.
+    + apply zeros_sorted.
+    + intros F'. congruence.
+Qed.
+
+Lemma sorted_app_lt (a b : list Z) :
+  Sorted Z.lt a -> Sorted Z.lt b -> (forall x y, In x a -> In y b -> x < y) -> Sorted Z.lt (a ++ b).
+Proof.
+  induction a as [|x a IH]; cbn [app]; intros Ha Hb H; [exact Hb|].
+  inversion Ha as [|? ? Hs Hh]; subst. constructor.
+  - apply IH; try assumption. intros u v Hu Hv'. apply H; [right; exact Hu|exact Hv'].
+  - destruct a as [|y a']; cbn [app].
+    + destruct b as [|z b']; constructor. apply H; left; reflexivity.
+    + constructor. inversion Hh; assumption.
+Qed.
+
+Lemma sorted_lt_forall x (l : list Z) : Sorted Z.lt (x :: l) -> Forall (fun y => x < y) l.
+Proof.
+  intros H. apply Sorted_StronglySorted in H; [|intros a b c; apply Z.lt_trans].
+  inversion H; assumption.
+Qed.
+
+Lemma mb_loop_inv (m : imap) : (forall k v, In (k, v) m -> int64 v) ->
+  forall keys (first : bool) st flat pos,
+  Sorted Z.lt keys -> (forall k, In k keys -> In k (map fst m) /\ int64 k) ->
+  (first = true -> pos = 0 /\ flat = []) ->
+  (first = false -> good_spans (mb_spans st) /\ -2147483647 <= pos /\ forall k, In k keys -> pos <= k) ->
+  mb_next st = wrap64 pos -> int64 (mb_prev st) ->
+  Dec (mb_spans st) (mb_deltas st) flat pos (mb_prev st) ->
+  validate_idx_loop keys (mb_next st) = None ->
+  Sorted Z.lt (map fst flat) -> Forall (fun p => fst p < pos) flat ->
+  Forall (fun p => In p m \/ (snd p = 0 /\ ~ In (fst p) (map fst m))) flat ->
+  (forall k, In k (map fst m) -> In k keys \/ In (k, lookup_int k m) flat) ->
+  exists flat' pos',
+    Dec (mb_spans (mb_loop m first st keys)) (mb_deltas (mb_loop m first st keys)) flat' pos' (mb_prev (mb_loop m first st keys)) /\
+    Sorted Z.lt (map fst flat') /\
+    Forall (fun p => In p m \/ (snd p = 0 /\ ~ In (fst p) (map fst m))) flat' /\
+    (forall k, In k (map fst m) -> In (k, lookup_int k m) flat').
+Proof.
+  intros Hv. induction keys as [|i rest IH]; intros first st flat pos Hs Hk Hf Hnf Hnext Hprev HD Hval F1 F2 F3 K.
+  - exists flat, pos. cbn [mb_loop]. repeat split; try assumption.
+    intros k Hin. destruct (K k Hin) as [[]|H]; exact H.
+  - cbn [validate_idx_loop] in Hval. cbn [mb_loop].
+    destruct ((max_int32 <? wrap64 (i - mb_next st)) || (wrap64 (i - mb_next st) <? min_int32)) eqn:Ec; [discriminate|].
+    destruct (Hk i (or_introl eq_refl)) as [Hin Hi].
+    assert (Hf' : first = true -> pos = 0) by (intros F; apply Hf; exact F).
+    assert (Hnf' : first = false -> good_spans (mb_spans st) /\ -2147483647 <= pos <= i).
+    { intros F. destruct (Hnf F) as (G & L & U). repeat split; try assumption. apply U. left; reflexivity. }
+    destruct (mb_step_inv m first st flat pos i Hv Hin Hi Hf' Hnf' Hnext Hprev HD Ec)
+      as (gap & D1 & G1 & N1 & P1 & L1 & Gp & Gs & Gf).
+    assert (Hgt : Forall (fun y => i < y) rest) by (apply sorted_lt_forall; exact Hs).
+    rewrite Forall_forall in Hgt.
+    assert (Hflat : first = true -> flat = []) by (intros F; apply Hf; exact F).
+    apply (IH false (mb_step m first st i) (flat ++ gap ++ [(i, lookup_int i m)]) (i + 1)).
+    + inversion Hs; assumption.
+    + intros k Hin'. apply Hk. right; exact Hin'.
+    + discriminate.
+    + intros _. repeat split; try assumption. intros k Hin'. specialize (Hgt k Hin'). lia.
+    + exact N1.
+    + exact P1.
+    + exact D1.
+    + rewrite N1. exact Hval.
+    + rewrite !map_app. cbn [map fst].
+      destruct first.
+      * rewrite (Hflat eq_refl), (Gf eq_refl). cbn. constructor; constructor.
+      * rewrite Forall_forall in F2. destruct (Hnf' eq_refl) as (_ & _ & Hpi).
+        apply sorted_app_lt; [exact F1| |].
+        -- apply sorted_app_lt; [exact Gs|constructor; constructor|].
+           intros x y Hx Hy. apply in_map_iff in Hx. destruct Hx as (p & Ep & Hp). destruct Hy as [Hy|[]].
+           subst. apply Gp in Hp. lia.
+        -- intros x y Hx Hy. apply in_map_iff in Hx. destruct Hx as (p & Ep & Hp). specialize (F2 p Hp). cbn beta in F2.
+           apply in_app_or in Hy. destruct Hy as [Hy|[Hy|[]]].
+           ++ apply in_map_iff in Hy. destruct Hy as (q & Eq & Hq). apply Gp in Hq. lia.
+           ++ lia.
+    + apply Forall_forall. intros p Hp. rewrite Forall_forall in F2.
+      apply in_app_or in Hp. destruct Hp as [Hp|Hp].
+      * specialize (F2 p Hp). cbn beta in F2.
+        destruct first; [rewrite (Hflat eq_refl) in Hp; contradiction|]. destruct (Hnf' eq_refl) as (_ & _ & Hpi). lia.
+      * apply in_app_or in Hp. destruct Hp as [Hp|[Hp|[]]].
+        -- apply Gp in Hp. lia.
+        -- subst p. cbn. lia.
+    + apply Forall_forall. intros p Hp. rewrite Forall_forall in F3.
+      apply in_app_or in Hp. destruct Hp as [Hp|Hp]; [apply F3; exact Hp|].
+      apply in_app_or in Hp. destruct Hp as [Hp|[Hp|[]]].
+      * right. destruct (Gp p Hp) as [Hrange Hz]. split; [exact Hz|]. intros Hin'.
+        destruct (K (fst p) Hin') as [[Hk1|Hk1]|Hk1].
+        -- lia.
+        -- specialize (Hgt _ Hk1). lia.
+        -- rewrite Forall_forall in F2. specialize (F2 _ Hk1). cbn in F2. lia.
+      * left. subst p. apply lookup_int_in. exact Hin.
+    + intros k Hin'. destruct (K k Hin') as [[Hk1|Hk1]|Hk1].
+      * subst k. right. apply in_or_app. right. apply in_or_app. right. left; reflexivity.
+      * left; exact Hk1.
+      * right. apply in_or_app. left; exact Hk1.
+Qed.
+
+Lemma nodup_Z_cmp (l : list Z) : NoDup l -> ForallOrdPairs (cmpb Z.ltb) l.
+Proof.
+  induction l as [|x r IH]; intros H; [constructor|].
+  inversion H as [|? ? Hn Hr]; subst. constructor; [|apply IH; exact Hr].
+  apply Forall_forall. intros y Hy. unfold cmpb.
+  destruct (Z.ltb_spec x y); [left; reflexivity|]. destruct (Z.ltb_spec y x); [right; reflexivity|].
+  exfalso. apply Hn. assert (x = y) by lia. subst. exact Hy.
+Qed.
+
+Lemma sorted_ltb_lt (l : list Z) : Sorted (ltT Z.ltb) l -> Sorted Z.lt l.
+Proof.
+  induction 1 as [|x r Hs IH Hh]; constructor; [exact IH|].
+  destruct Hh; constructor. apply Z.ltb_lt. assumption.
+Qed.
+
+Lemma sort_ints_sorted (l : list Z) : NoDup l -> Sorted Z.lt (sort_ints l).
+Proof. intros H. apply sorted_ltb_lt. apply (sort_sorted Z.ltb). apply nodup_Z_cmp. exact H. Qed.
+
+Lemma native_const_spans_decode_lemma (m : imap) :
+  NoDup (map fst m) -> (forall k v, In (k, v) m -> int64 k /\ int64 v) ->
+  validate_bucket_indexes m = None ->
+  let dec := decode_spans (fst (make_buckets_from_map m)) (snd (make_buckets_from_map m)) in
+  (forall k v, In (k, v) m -> In (k, v) dec) /\
+  (forall k v, In (k, v) dec -> In (k, v) m \/ (v = 0 /\ ~ In k (map fst m))) /\
+  Sorted Z.lt (map fst dec).
+Proof.
+  intros Hnd Hr Hval. destruct m as [|p r].
+  - cbn. repeat split; try contradiction. constructor.
+  - set (m := p :: r) in *. unfold make_buckets_from_map. fold m.
+    change (match m with [] => ([], []) | _ :: _ => _ end) with
+      (let st := mb_loop m true (mkMb [] [] 0 0) (sort_ints (map fst m)) in (rev (mb_spans st), rev (mb_deltas st))).
+    cbv zeta. cbn [fst snd].
+    assert (Hv : forall k v, In (k, v) m -> int64 v) by (intros k v H; apply (Hr k v H)).
+    assert (Hperm : Permutation (map fst m) (sort_ints (map fst m))) by apply sort_perm.
+    destruct (mb_loop_inv m Hv (sort_ints (map fst m)) true (mkMb [] [] 0 0) [] 0) as (flat & pos & D & S1 & S2 & S3).
+    + apply sort_ints_sorted. exact Hnd.
+    + intros k Hk. assert (Hin : In k (map fst m)) by (eapply Permutation_in; [apply Permutation_sym; exact Hperm|exact Hk]).
+      split; [exact Hin|]. apply in_map_iff in Hin. destruct Hin as ([a v] & E & Hin). cbn in E. subst a. apply (Hr k v Hin).
+    + intros _. split; reflexivity.
+    + discriminate.
+    + reflexivity.
+    + cbn. lia.
+    + apply Dec_nil.
+    + exact Hval.
+    + constructor.
+    + constructor.
+    + constructor.
+    + intros k Hk. left. eapply Permutation_in; [exact Hperm|exact Hk].
+    + assert (E : decode_spans (rev (mb_spans (mb_loop m true (mkMb [] [] 0 0) (sort_ints (map fst m)))))
+                               (rev (mb_deltas (mb_loop m true (mkMb [] [] 0 0) (sort_ints (map fst m))))) = flat).
+      { unfold decode_spans. rewrite decode_full_out. specialize (D []). rewrite app_nil_r in D. rewrite D. reflexivity. }
+      rewrite E. split; [|split].
+      * intros k v Hin. rewrite <- (lookup_int_nodup k v m Hnd Hin). apply S3.
+        change k with (fst (k, v)). apply in_map. exact Hin.
+      * intros k v Hin. rewrite Forall_forall in S2. apply (S2 (k, v) Hin).
+      * exact S1.
+Qed.
+
+(* =========================================================== native: index validation is exact *)
+Lemma validate_idx_iff : forall keys (first : bool) pos,
+  Sorted Z.lt keys -> (forall k, In k keys -> int64 k) ->
+  (first = true -> pos = 0) ->
+  (first = false -> -2147483647 <= pos /\ forall k, In k keys -> pos <= k) ->
+  (validate_idx_loop keys (wrap64 pos) = None <-> gaps_spec keys pos = true).
+Proof.
+  induction keys as [|i rest IH]; intros first pos Hs Hk Hf Hnf; [split; reflexivity|].
+  cbn [validate_idx_loop gaps_spec].
+  assert (Hi : int64 i) by (apply Hk; left; reflexivity).
+  assert (Hnf' : first = false -> -2147483647 <= pos <= i).
+  { intros F. destruct (Hnf F) as [L U]. split; [exact L|apply U; left; reflexivity]. }
+  assert (Hgt : Forall (fun y => i < y) rest) by (apply sorted_lt_forall; exact Hs). rewrite Forall_forall in Hgt.
+  assert (Hrec : -2147483647 <= i + 1 ->
+                 (validate_idx_loop rest (wrap64 (i + 1)) = None <-> gaps_spec rest (i + 1) = true)).
+  { intros L. apply (IH false); [inversion Hs; assumption|intros k H; apply Hk; right; exact H|discriminate|].
+    intros _. split; [exact L|]. intros k H. specialize (Hgt k H). lia. }
+  destruct ((max_int32 <? wrap64 (i - wrap64 pos)) || (wrap64 (i - wrap64 pos) <? min_int32)) eqn:Ec.
+  - split; [discriminate|]. intros H. exfalso. apply andb_true_iff in H. destruct H as [H _].
+    unfold in_rng, max_int32, min_int32 in *. apply andb_true_iff in H. destruct H as [H1 H2].
+    apply Z.leb_le in H1. apply Z.leb_le in H2.
+    assert (Wp : wrap64 pos = pos).
+    { apply wrap64_id. destruct first; [rewrite (Hf eq_refl); lia|specialize (Hnf' eq_refl); lia]. }
+    rewrite Wp in Ec. rewrite (wrap64_id (i - pos)) in Ec by lia.
+    apply orb_true_iff in Ec. destruct Ec as [E|E]; apply Z.ltb_lt in E; lia.
+  - destruct (idelta_exact first pos i Hi Hf Hnf' Ec) as (Wp & Wd & Hr & Hnn).
+    assert (L : -2147483647 <= i + 1).
+    { unfold min_int32, max_int32 in Hr. destruct first; [rewrite (Hf eq_refl) in Hr; lia|specialize (Hnf' eq_refl); lia]. }
+    rewrite (Hrec L). unfold in_rng. destruct Hr as [Hr1 Hr2]. apply Z.leb_le in Hr1. apply Z.leb_le in Hr2.
+    rewrite Hr1, Hr2. cbn [andb]. reflexivity.
+Qed.
+
+Lemma bucket_index_validation_exact_lemma (m : imap) :
+  NoDup (map fst m) -> (forall k, In k (map fst m) -> int64 k) ->
+  (validate_bucket_indexes m = None <-> gaps_spec (sort_ints (map fst m)) 0 = true).
+Proof.
+  intros Hnd Hk. unfold validate_bucket_indexes.
+  change 0 with (wrap64 0) at 1.
+  apply (validate_idx_iff _ true 0).
+  - apply sort_ints_sorted. exact Hnd.
+  - intros k H. apply Hk. eapply Permutation_in; [apply Permutation_sym; apply sort_perm|exact H].
+  - reflexivity.
+  - discriminate.
+Qed.
+
+(* =========================================================== native: count validation *)
+Lemma pop_sum_cons p (r : imap) : pop_sum (p :: r) = snd p + pop_sum r.
+Proof.
+  unfold pop_sum. cbn [fold_left].
+  assert (G : forall (l : imap) x y, fold_left (fun a p => a + snd p) l (x + y) = x + fold_left (fun a p => a + snd p) l y).
+  { clear. induction l as [|q l IHl]; intros x y; cbn [fold_left]; [reflexivity|]. rewrite <- IHl. f_equal. lia. }
+  replace (0 + snd p) with (snd p + 0) by lia. apply G.
+Qed.
+
+Lemma wrap_sum_congr (l : imap) : forall a, exists k,
+  fold_left (fun a p => wrap64 (a + snd p)) l a = a + pop_sum l + k * 18446744073709551616.
+Proof.
+  induction l as [|p r IH]; intros a.
+  - exists 0. cbn. lia.
+  - cbn [fold_left]. destruct (IH (wrap64 (a + snd p))) as (k & E). destruct (wrap64_spec (a + snd p)) as (k2 & E2 & _).
+    rewrite E, E2, pop_sum_cons. exists (k + k2). lia.
+Qed.
+
+Lemma validate_count_exact_lemma sum count (neg pos : imap) zero :
+  0 <= count < 9223372036854775808 -> int64 (pop_sum pos + pop_sum neg + zero) ->
+  (validate_count sum count neg pos zero = None <-> count_consistent_spec sum count neg pos zero = true).
+Proof.
+  intros Hc Hs. unfold validate_count, count_consistent_spec. cbv zeta.
+  destruct (wrap_sum_congr pos 0) as (k1 & E1). rewrite E1.
+  destruct (wrap_sum_congr neg (0 + pop_sum pos + k1 * 18446744073709551616)) as (k2 & E2). rewrite E2.
+  destruct (wrap64_spec zero) as (k3 & E3 & _). rewrite E3.
+  rewrite (wrap64_id count) by lia.
+  match goal with |- context [count <? wrap64 ?z] => destruct (wrap64_spec z) as (k4 & E4 & B4) end.
+  assert (Ex : wrap64 (0 + pop_sum pos + k1 * 18446744073709551616 + pop_sum neg + k2 * 18446744073709551616 +
+                       (zero + k3 * 18446744073709551616)) = pop_sum pos + pop_sum neg + zero) by lia.
+  rewrite Ex. clear E1 E2 E3 E4 Ex B4.
+  destruct (is_nan sum); cbn [andb orb negb].
+  - rewrite orb_false_r. destruct (Z.ltb_spec count (pop_sum pos + pop_sum neg + zero)), (Z.leb_spec (pop_sum pos + pop_sum neg + zero) count);
+      split; intros HH; try reflexivity; try discriminate; lia.
+  - destruct (Z.eqb_spec (pop_sum pos + pop_sum neg + zero) count); cbn [negb]; split; intros HH; try reflexivity; discriminate.
+Qed.
+
+(* without the no-overflow hypotheses the check is wrong: count = 2^64 - 3 and one bucket with population -3 *)
+Lemma validate_count_wrap_refuted_lemma :
+  exists sum count (neg pos : imap) zero,
+    0 <= count < 18446744073709551616 /\ is_nan sum = false /\
+    count_consistent_spec sum count neg pos zero = false /\ validate_count sum count neg pos zero = None.
+Proof.
+  exists fone, 18446744073709551613, [], [(0, -3)], 0. repeat split; try lia; vm_compute; reflexivity.
+Qed.
+
+(* =========================================================== classic buckets and quantiles *)
+Definition fcomparable {B} (a b : f64 * B) : Prop := flt (fst a) (fst b) = true \/ flt (fst b) (fst a) = true.
+
+Lemma distinct_nonnan_comparable x y :
+  is_nan x = false -> is_nan y = false -> feq x y = false -> flt x y = true \/ flt y x = true.
+Proof.
+  intros Hx Hy He. destruct (fle_total x y Hx Hy) as [H|H]; [|right; exact H].
+  left. unfold fle, flt, feq in *. destruct (fcmp x y) as [[| |]|]; try discriminate; reflexivity.
+Qed.
+
+Lemma const_buckets_sorted_lemma {B} (l : list (f64 * B)) :
+  Permutation l (sort_by fpair_lt l) /\
+  (ForallOrdPairs fcomparable l -> Sorted (fun a b => flt (fst a) (fst b) = true) (sort_by fpair_lt l)).
+Proof.
+  split; [apply sort_perm|]. intros H. apply (sort_sorted fpair_lt). exact H.
+Qed.
+
+Lemma sorted_f_b_sound {B} (l : list (f64 * B)) : sorted_f_b l = true -> Sorted (fun a b => flt (fst a) (fst b) = true) l.
+Proof.
+  induction l as [|a r IH]; [constructor|]. destruct r as [|b r'].
+  - intros _. constructor; constructor.
+  - cbn [sorted_f_b]. intros H. apply andb_true_iff in H. destruct H as [H1 H2].
+    constructor; [apply IH; exact H2|]. constructor. exact H1.
+Qed.
+
+Lemma const_histogram_faithful_lemma fq help vars consts count sum buckets lvs o :
+  new_const_histogram (new_desc fq help vars consts) count sum buckets lvs = Ok o ->
+  d_err (new_desc fq help vars consts) = None /\
+  ho_labels o = make_label_pairs (new_desc fq help vars consts) lvs /\ ho_count o = count /\ ho_sum o = sum /\
+  Permutation buckets (ho_buckets o) /\
+  (ForallOrdPairs fcomparable buckets -> Sorted (fun a b => flt (fst a) (fst b) = true) (ho_buckets o)).
+Proof.
+  unfold new_const_histogram. destruct (d_err (new_desc fq help vars consts)); [discriminate|].
+  destruct (validate_label_values lvs _); [discriminate|]. intros H. inversion H; subst. cbn.
+  repeat split; try reflexivity; apply const_buckets_sorted_lemma.
+Qed.
+
+Lemma const_summary_faithful_lemma fq help vars consts count sum qs lvs o :
+  new_const_summary (new_desc fq help vars consts) count sum qs lvs = Ok o ->
+  d_err (new_desc fq help vars consts) = None /\
+  su_labels o = make_label_pairs (new_desc fq help vars consts) lvs /\ su_count o = count /\ su_sum o = sum /\
+  Permutation qs (su_quantiles o) /\
+  (ForallOrdPairs fcomparable qs -> Sorted (fun a b => flt (fst a) (fst b) = true) (su_quantiles o)).
+Proof.
+  unfold new_const_summary. destruct (d_err (new_desc fq help vars consts)); [discriminate|].
+  destruct (validate_label_values lvs _); [discriminate|]. intros H. inversion H; subst. cbn.
+  repeat split; try reflexivity; apply const_buckets_sorted_lemma.
+Qed.
+
+(* =========================================================== native: the constructor as a whole *)
+Definition decodes_to (m : imap) (spans : list span) (deltas : list Z) : Prop :=
+  let dec := decode_spans spans deltas in
+  (forall k v, In (k, v) m -> In (k, v) dec) /\
+  (forall k v, In (k, v) dec -> In (k, v) m \/ (v = 0 /\ ~ In k (map fst m))) /\
+  Sorted Z.lt (map fst dec).
+
+Lemma native_const_faithful_lemma d count sum (pos neg : imap) zero schema zt lvs o :
+  NoDup (map fst pos) -> NoDup (map fst neg) ->
+  (forall k v, In (k, v) pos -> int64 k /\ int64 v) -> (forall k v, In (k, v) neg -> int64 k /\ int64 v) ->
+  new_const_native_histogram d count sum pos neg zero schema zt lvs = Ok o ->
+  d_err d = None /\ validate_label_values lvs (Z.of_nat (length (d_vars d))) = None /\
+  schema_min <= schema <= schema_max /\
+  no_labels o = make_label_pairs d lvs /\ no_count o = count /\ no_sum o = sum /\ no_zero o = zero /\
+  no_schema o = schema /\ no_zt o = zt /\
+  decodes_to pos (no_pos_spans o) (no_pos_deltas o) /\ decodes_to neg (no_neg_spans o) (no_neg_deltas o).
+Proof.
+  intros Np Nn Rp Rn. unfold new_const_native_histogram.
+  destruct (d_err d); [discriminate|].
+  destruct (validate_label_values lvs _); [discriminate|].
+  destruct ((schema_max <? schema) || (schema <? schema_min)) eqn:Es; [discriminate|].
+  destruct (validate_count sum count neg pos zero); [discriminate|].
+  destruct (validate_bucket_indexes neg) eqn:Vn; [discriminate|].
+  destruct (validate_bucket_indexes pos) eqn:Vp; [discriminate|].
+  pose proof (native_const_spans_decode_lemma pos Np Rp Vp) as Dp.
+  pose proof (native_const_spans_decode_lemma neg Nn Rn Vn) as Dn.
+  destruct (make_buckets_from_map neg) as [ns nd]. destruct (make_buckets_from_map pos) as [ps pd].
+  cbn [fst snd] in Dp, Dn. intros H. inversion H; subst; clear H. cbn.
+  apply orb_false_iff in Es. destruct Es as [E1 E2]. apply Z.ltb_ge in E1. apply Z.ltb_ge in E2.
+  repeat split; try reflexivity; try lia; try apply Dn; try apply Dp.
+  all: unfold decodes_to in *; destruct (feq zt pzero && (zero =? 0) && Nat.eqb (length ps) 0 && Nat.eqb (length ns) 0) eqn:Ez;
+    try apply Dp.
+  all: apply andb_true_iff in Ez; destruct Ez as [Ez _]; apply andb_true_iff in Ez; destruct Ez as [_ Ez];
+    destruct ps; [|discriminate]; apply Dp.
+Qed.
+
+(* =========================================================== live histograms / summaries refuse le / quantile *)
+Lemma le_quantile_refused_on_live_lemma r is_vec early ns sub name help vars consts lvs d labels :
+  new_live (Some r) is_vec early ns sub name help vars consts lvs = LiveOk d labels ->
+  d = new_desc (build_fq_name ns sub name) help vars consts /\ labels = make_label_pairs d lvs /\
+  length lvs = length (d_vars d) /\
+  (d_err d = None -> ~ In r vars /\ ~ In r (map fst consts)).
+Proof.
+  unfold new_live.
+  destruct (early && existsb (str_eqb r) vars); [discriminate|].
+  set (d0 := new_desc (build_fq_name ns sub name) help vars consts).
+  destruct (is_vec && _); [discriminate|].
+  destruct (Nat.eqb_spec (length (d_vars d0)) (length lvs)) as [El|El]; cbn [negb]; [|discriminate].
+  destruct (existsb (str_eqb r) (d_vars d0) || existsb (fun p => str_eqb (fst p) r) (d_const d0)) eqn:Eh; [discriminate|].
+  intros H. inversion H; subst. split; [reflexivity|]. split; [reflexivity|]. split; [symmetry; exact El|].
+  intros Hok. apply orb_false_iff in Eh. destruct Eh as [Eh1 Eh2].
+  unfold d0 in Eh1, Eh2, Hok. rewrite (new_desc_ok_shape _ _ _ _ Hok) in Eh1, Eh2. cbn [d_vars d_const] in Eh1, Eh2.
+  split; intros Hin.
+  - assert (X : existsb (str_eqb r) vars = true); [|rewrite X in Eh1; discriminate Eh1].
+    apply existsb_exists. exists r. split; [exact Hin|apply str_eqb_refl].
+  - assert (X : existsb (fun p : str * str => str_eqb (fst p) r) (sort_pairs consts) = true);
+      [|unfold lpair in *; rewrite X in Eh2; discriminate Eh2].
+    apply in_map_iff in Hin. destruct Hin as (p & Ep & Hp).
+    apply existsb_exists. exists p. split; [|rewrite Ep; apply str_eqb_refl].
+    eapply Permutation_in; [apply sort_perm|exact Hp].
+Qed.
+
+(* =========================================================== exemplar wrapper keeps the wrapped histogram's buckets *)
+Definition bc (b : bucket) : f64 * Z := (b_bound b, b_cum b).
+
+Lemma set_ex_bc bs : forall i e, map bc (set_ex bs i e) = map bc bs.
+Proof. induction bs as [|b r IH]; intros [|i] e; cbn; try reflexivity. rewrite IH. reflexivity. Qed.
+
+Lemma place_all_bc count exs : forall bs,
+  exists k, map bc (fold_left (place_one count) exs bs) = map bc bs ++ repeat (pinf, count) k.
+Proof.
+  induction exs as [|e r IH]; intros bs; cbn [fold_left].
+  - exists O. cbn. rewrite app_nil_r. reflexivity.
+  - destruct (IH (place_one count bs e)) as (k & E). rewrite E. unfold place_one.
+    match goal with |- context [if ?c then _ else _] => destruct c end.
+    + exists k. rewrite set_ex_bc. reflexivity.
+    + exists (S k). rewrite map_app, <- app_assoc. reflexivity.
+Qed.
+
+Lemma exemplar_wrapper_keeps_values_lemma p exs out :
+  with_exemplars_write p exs = Ok out ->
+  match p, out with
+  | PCounter v _, PCounter v' e' => v' = v /\ e' = Some (last exs (mkEx fnan []))
+  | PHistogram c bs, PHistogram c' bs' => c' = c /\ exists k, map bc bs' = map bc bs ++ repeat (pinf, c) k
+  | _, _ => False
+  end.
+Proof.
+  destruct p as [v e|c bs|]; cbn; intros H; inversion H; subst.
+  - split; reflexivity.
+  - split; [reflexivity|]. apply place_all_bc.
+Qed.
+
+(* =========================================================== UTF-8: rune count of a valid string *)
+Lemma is_cont_true c : 128 <= c <= 191 -> is_cont c = true.
+Proof. intros H. unfold is_cont, in_rng. destruct (Z.leb_spec 128 c), (Z.leb_spec c 191); try reflexivity; lia. Qed.
+Lemma is_cont_false c : c < 128 \/ 191 < c -> is_cont c = false.
+Proof. intros H. unfold is_cont, in_rng. destruct (Z.leb_spec 128 c), (Z.leb_spec c 191); try reflexivity; lia. Qed.
+Lemma in_rng_true lo hi c : in_rng lo hi c = true -> lo <= c <= hi.
+Proof. unfold in_rng. intros H. apply andb_true_iff in H. destruct H as [H1 H2]. apply Z.leb_le in H1. apply Z.leb_le in H2. lia. Qed.
+
+Lemma count_starts_cons c r : count_starts (c :: r) = (if is_cont c then 0 else 1) + count_starts r.
+Proof. unfold count_starts. cbn [filter]. destruct (is_cont c); cbn [negb length]; lia. Qed.
+
+Lemma utf8_step_count s k : utf8_step s = k -> k <> 0 ->
+  1 <= k <= 4 /\ (Z.to_nat k <= length s)%nat /\ count_starts s = 1 + count_starts (skipn (Z.to_nat k) s).
+Proof.
+  unfold utf8_step. destruct s as [|c0 r]; [intros <- H; congruence|].
+  destruct (in_rng 0 127 c0) eqn:A0.
+  { intros <- _. apply in_rng_true in A0. rewrite count_starts_cons, (is_cont_false c0) by lia.
+    cbn. repeat split; lia. }
+  destruct (in_rng 194 223 c0) eqn:A1.
+  { destruct r as [|c1 r]; [intros <- H; congruence|]. destruct (is_cont c1) eqn:C1; [|intros <- H; congruence].
+    intros <- _. apply in_rng_true in A1. rewrite !count_starts_cons, C1, (is_cont_false c0) by lia.
+    cbn. repeat split; lia. }
+  destruct (in_rng 224 239 c0) eqn:A2.
+  { destruct r as [|c1 [|c2 r]]; try (intros <- H; congruence).
+    match goal with |- (if ?c then _ else _) = _ -> _ => destruct c eqn:C end; [|intros <- H; congruence].
+    intros <- _. apply in_rng_true in A2. apply andb_true_iff in C. destruct C as [C1 C2].
+    apply in_rng_true in C1.
+    assert (is_cont c1 = true) by (apply is_cont_true; destruct (c0 =? 224), (c0 =? 237); lia).
+    rewrite !count_starts_cons, C2, H, (is_cont_false c0) by lia. cbn. repeat split; lia. }
+  destruct (in_rng 240 244 c0) eqn:A3.
+  { destruct r as [|c1 [|c2 [|c3 r]]]; try (intros <- H; congruence).
+    match goal with |- (if ?c then _ else _) = _ -> _ => destruct c eqn:C end; [|intros <- H; congruence].
+    intros <- _. apply in_rng_true in A3. apply andb_true_iff in C. destruct C as [C C3].
+    apply andb_true_iff in C. destruct C as [C1 C2]. apply in_rng_true in C1.
+    assert (is_cont c1 = true) by (apply is_cont_true; destruct (c0 =? 240), (c0 =? 244); lia).
+    rewrite !count_starts_cons, C2, C3, H, (is_cont_false c0) by lia. cbn. repeat split; lia. }
+  intros <- H; congruence.
+Qed.
+
+Lemma rune_count_fuel_valid : forall fuel s n, (length s <= fuel)%nat ->
+  utf8_valid_fuel fuel s = true -> rune_count_fuel fuel s n = n + count_starts s.
+Proof.
+  induction fuel as [|f IH]; intros s n Hl Hv.
+  - destruct s; [cbn; lia|cbn in Hl; lia].
+  - destruct s as [|c r]; [cbn; lia|]. cbn [utf8_valid_fuel rune_count_fuel] in *.
+    set (k := utf8_step (c :: r)) in *. destruct (Z.eqb_spec k 0) as [|Ek]; [discriminate|].
+    destruct (utf8_step_count (c :: r) k eq_refl Ek) as (R & L & C).
+    rewrite IH; [rewrite C; lia| |exact Hv].
+    rewrite skipn_length. cbn [length] in *. lia.
+Qed.
+
+Lemma rune_count_valid s : utf8_valid s = true -> rune_count s = count_starts s.
+Proof. unfold utf8_valid, rune_count. intros H. rewrite rune_count_fuel_valid; [lia|lia|exact H]. Qed.
+
+(* =========================================================== newExemplar *)
+Definition pair_ok (p : lpair) : bool := check_label_name (fst p) && utf8_valid (snd p).
+Definition runes_of (l : list lpair) (a : Z) : Z :=
+  fold_left (fun a p => a + rune_count (fst p) + rune_count (snd p)) l a.
+
+Lemma ex_loop_ok l : forall runes acc, forallb pair_ok l = true ->
+  ex_loop l runes acc = Ok (runes_of l runes, rev acc ++ l).
+Proof.
+  induction l as [|[n v] r IH]; intros runes acc H.
+  - cbn. rewrite app_nil_r. reflexivity.
+  - cbn [forallb] in H. apply andb_true_iff in H. destruct H as [H1 H2].
+    unfold pair_ok in H1. cbn [fst snd] in H1. apply andb_true_iff in H1. destruct H1 as [Hn Hv].
+    cbn [ex_loop]. rewrite Hn, Hv. cbn [negb]. rewrite (IH _ _ H2). cbn [rev]. rewrite <- app_assoc. reflexivity.
+Qed.
+
+Lemma ex_loop_err l : forall runes acc, forallb pair_ok l = false ->
+  exists e, ex_loop l runes acc = Err e /\ (e = ErrExName \/ e = ErrExValue).
+Proof.
+  induction l as [|[n v] r IH]; intros runes acc H; [discriminate|].
+  cbn [forallb] in H. cbn [ex_loop].
+  destruct (check_label_name n) eqn:Hn; cbn [negb]; [|exists ErrExName; split; [reflexivity|left; reflexivity]].
+  destruct (utf8_valid v) eqn:Hv; cbn [negb]; [|exists ErrExValue; split; [reflexivity|right; reflexivity]].
+  apply IH. unfold pair_ok in H. cbn [fst snd] in H. rewrite Hn, Hv in H. exact H.
+Qed.
+
+Lemma runes_of_spec l : forall a, forallb pair_ok l = true ->
+  runes_of l a = fold_left (fun a p => a + count_starts (fst p) + count_starts (snd p)) l a.
+Proof.
+  unfold runes_of. induction l as [|[n v] r IH]; intros a H; [reflexivity|].
+  cbn [forallb] in H. apply andb_true_iff in H. destruct H as [H1 H2].
+  unfold pair_ok in H1. cbn [fst snd] in H1. apply andb_true_iff in H1. destruct H1 as [Hn Hv].
+  cbn [fold_left fst snd]. rewrite (rune_count_valid v Hv).
+  assert (Hn' : utf8_valid n = true).
+  { unfold check_label_name, label_name_valid in Hn. apply andb_true_iff in Hn. destruct Hn as [Hn _].
+    apply andb_true_iff in Hn. destruct Hn as [_ Hn]. exact Hn. }
+  rewrite (rune_count_valid n Hn'). apply IH. exact H2.
+Qed.
+
+Lemma exemplar_ok_spec_split l :
+  exemplar_ok_spec l = forallb pair_ok l &&
+    (fold_left (fun a p => a + count_starts (fst p) + count_starts (snd p)) l 0 <=? exemplar_max_runes).
+Proof. reflexivity. Qed.
+
+Lemma exemplar_rune_limit_lemma v l :
+  (exemplar_ok_spec l = true -> new_exemplar v l = Ok (mkEx v l)) /\
+  (exemplar_ok_spec l = false -> exists e, new_exemplar v l = Err e /\
+     (e = ErrExName \/ e = ErrExValue \/
+      (e = ErrExRunes /\ forallb pair_ok l = true /\
+       128 < fold_left (fun a p => a + count_starts (fst p) + count_starts (snd p)) l 0))).
+Proof.
+  rewrite exemplar_ok_spec_split. unfold new_exemplar. change exemplar_max_runes with 128.
+  destruct (forallb pair_ok l) eqn:Ep.
+  - rewrite (ex_loop_ok l 0 [] Ep). rewrite (runes_of_spec l 0 Ep). cbn [andb rev app].
+    match goal with |- context [fold_left ?f l 0] => set (n := fold_left f l 0) end.
+    destruct (Z.leb_spec n 128) as [Hle|Hgt]; destruct (Z.ltb_spec 128 n); try lia; split; intros HH; try discriminate; try reflexivity.
+    exists ErrExRunes. split; [reflexivity|]. right; right. repeat split. lia.
+  - cbn [andb]. split; [discriminate|]. intros _.
+    destruct (ex_loop_err l 0 [] Ep) as (e & E & He). rewrite E. exists e. split; [reflexivity|]. tauto.
+Qed.
+
+Lemma new_exemplars_spec (exs : list (f64 * list lpair)) :
+  (forallb (fun p => exemplar_ok_spec (snd p)) exs = true ->
+     new_exemplars exs = Ok (map (fun p => mkEx (fst p) (snd p)) exs)) /\
+  (forallb (fun p => exemplar_ok_spec (snd p)) exs = false -> exists e, new_exemplars exs = Err e).
+Proof.
+  induction exs as [|[v l] r [IH1 IH2]]; [split; [reflexivity|discriminate]|].
+  cbn [forallb new_exemplars fst snd map]. destruct (exemplar_rune_limit_lemma v l) as [A B].
+  destruct (exemplar_ok_spec l) eqn:E.
+  - rewrite (A eq_refl). cbn [andb]. split.
+    + intros H. rewrite (IH1 H). reflexivity.
+    + intros H. destruct (IH2 H) as (e & Ee). rewrite Ee. exists e. reflexivity.
+  - destruct (B eq_refl) as (e & Ee & _). rewrite Ee. split; [discriminate|]. intros _. exists e. reflexivity.
+Qed.
+
+(* =========================================================== exemplar placement *)
+Lemma go_search_loop_spec (f : Z -> bool) (k n : Z) :
+  (forall i, 0 <= i < k -> f i = false) ->
+  (forall i, k <= i < n -> f i = true) ->
+  forall fuel i j, 0 <= i -> i <= k -> k <= j -> j <= n -> j - i < Z.of_nat fuel ->
+  go_search_loop fuel f i j = k.
+Proof.
+  intros Hlo Hhi. induction fuel as [|fuel IH]; intros i j H0 H1 H2 H3 H4; [lia|].
+  cbn [go_search_loop]. destruct (Z.ltb_spec i j) as [Hij|Hij]; [|lia].
+  assert (Hh : i <= (i + j) / 2 < j).
+  { split; [apply Z.div_le_lower_bound; lia|apply Z.div_lt_upper_bound; lia]. }
+  set (h := (i + j) / 2) in *.
+  destruct (f h) eqn:Hf; cbn [negb].
+  - assert (k <= h).
+    { destruct (Z_lt_le_dec h k) as [Hlt|Hge]; [|exact Hge]. rewrite Hlo in Hf by lia. discriminate Hf. }
+    apply IH; lia.
+  - assert (h < k).
+    { destruct (Z_lt_le_dec h k) as [Hlt|Hge]; [exact Hlt|]. rewrite Hhi in Hf by lia. discriminate Hf. }
+    apply IH; lia.
+Qed.
+
+Definition dflt_bucket : bucket := mkBucket fnan 0 None.
+Definition inf_bucket (count : Z) (e : exemplar) : bucket := mkBucket pinf count (Some e).
+
+(* bounds strictly increasing, none NaN, all above the lower limit *)
+Fixpoint chain (lo : option f64) (bs : list bucket) : Prop :=
+  match bs with
+  | [] => True
+  | b :: r => is_nan (b_bound b) = false /\ match lo with Some l => flt l (b_bound b) = true | None => True end /\
+              chain (Some (b_bound b)) r
+  end.
+
+Fixpoint place_lin (count : Z) (bs : list bucket) (e : exemplar) : list bucket :=
+  match bs with
+  | [] => [inf_bucket count e]
+  | b :: r => if fge (b_bound b) (ex_value e) then mkBucket (b_bound b) (b_cum b) (Some e) :: r
+              else b :: place_lin count r e
+  end.
+
+Fixpoint first_ge (bs : list bucket) (v : f64) : nat :=
+  match bs with [] => O | b :: r => if fge (b_bound b) v then O else S (first_ge r v) end.
+
+Lemma chain_above l r v : chain (Some l) r -> fle v l = true ->
+  forall j, (j < length r)%nat -> fle v (b_bound (nth j r dflt_bucket)) = true.
+Proof.
+  revert l. induction r as [|b r IH]; intros l Hc Hv j Hj; [cbn in Hj; lia|].
+  destruct Hc as (Hn & Hl & Hc).
+  assert (Hb : fle v (b_bound b) = true) by (apply flt_fle; eapply fle_flt_trans; eassumption).
+  destruct j as [|j]; [exact Hb|]. cbn [nth]. apply (IH (b_bound b)); [exact Hc|exact Hb|cbn in Hj; lia].
+Qed.
+
+Lemma first_ge_props lo bs v : chain lo bs ->
+  (forall i, (i < first_ge bs v)%nat -> fge (b_bound (nth i bs dflt_bucket)) v = false) /\
+  (forall i, (first_ge bs v <= i < length bs)%nat -> fge (b_bound (nth i bs dflt_bucket)) v = true).
+Proof.
+  revert lo. induction bs as [|b r IH]; intros lo Hc; [split; intros i Hi; cbn in Hi; lia|].
+  destruct Hc as (Hn & Hl & Hc). cbn [first_ge]. destruct (fge (b_bound b) v) eqn:E.
+  - split; [intros i Hi; lia|]. intros [|i] Hi; [exact E|]. cbn [nth]. unfold fge in *.
+    apply (chain_above (b_bound b)); [exact Hc|exact E|cbn in Hi; lia].
+  - destruct (IH (Some (b_bound b)) Hc) as [A B]. split.
+    + intros [|i] Hi; [exact E|]. cbn [nth]. apply A. lia.
+    + intros [|i] Hi; [lia|]. cbn [nth]. apply B. cbn in Hi. lia.
+Qed.
+
+Lemma place_lin_first_ge count bs e :
+  place_lin count bs e =
+  if (first_ge bs (ex_value e) <? length bs)%nat then set_ex bs (first_ge bs (ex_value e)) e
+  else bs ++ [inf_bucket count e].
+Proof.
+  induction bs as [|b r IH]; [reflexivity|]. cbn [place_lin first_ge]. destruct (fge (b_bound b) (ex_value e)).
+  - reflexivity.
+  - rewrite IH. cbn [length]. change (S (first_ge r (ex_value e)) <? S (length r))%nat with (first_ge r (ex_value e) <? length r)%nat.
+    destruct (first_ge r (ex_value e) <? length r)%nat; reflexivity.
+Qed.
+
+Lemma place_one_lin lo count bs e : chain lo bs -> place_one count bs e = place_lin count bs e.
+Proof.
+  intros Hc. rewrite place_lin_first_ge. unfold place_one. fold dflt_bucket.
+  destruct (first_ge_props lo bs (ex_value e) Hc) as [A B].
+  set (k := first_ge bs (ex_value e)) in *.
+  assert (Hk : (k <= length bs)%nat).
+  { unfold k. clear. induction bs as [|b r IH]; cbn; [lia|]. destruct (fge _ _); cbn; lia. }
+  assert (G : go_search (Z.of_nat (length bs)) (fun i => fge (b_bound (nth (Z.to_nat i) bs dflt_bucket)) (ex_value e)) = Z.of_nat k).
+  { unfold go_search. apply go_search_loop_spec with (n := Z.of_nat (length bs)); try lia.
+    - intros i Hi. apply A. lia.
+    - intros i Hi. apply B. lia. }
+  rewrite G. rewrite Nat2Z.id.
+  destruct (Z.ltb_spec (Z.of_nat k) (Z.of_nat (length bs))), (Nat.ltb_spec k (length bs)); try lia; reflexivity.
+Qed.
+
+Lemma last_in_snoc lo hi exs e :
+  last_in lo hi (exs ++ [e]) = if in_bucket lo hi (ex_value e) then Some e else last_in lo hi exs.
+Proof. unfold last_in. rewrite fold_left_app. reflexivity. Qed.
+
+Lemma last_in_some lo hi exs : forall e, last_in lo hi exs = Some e -> in_bucket lo hi (ex_value e) = true.
+Proof.
+  induction exs as [|x r IH] using rev_ind; intros e H; [discriminate|].
+  rewrite last_in_snoc in H. destruct (in_bucket lo hi (ex_value x)) eqn:E; [inversion H; subst; exact E|apply IH; exact H].
+Qed.
+
+(* an exemplar at or below l lands in no bucket above l *)
+Lemma spec_place_below l r count exs e : chain (Some l) r -> fle (ex_value e) l = true ->
+  spec_place_from (Some l) r count (exs ++ [e]) = spec_place_from (Some l) r count exs.
+Proof.
+  revert l. induction r as [|b r IH]; intros l Hc Hv; cbn [spec_place_from].
+  - rewrite last_in_snoc. unfold in_bucket. rewrite (fle_not_flt _ _ Hv), andb_false_r. reflexivity.
+  - destruct Hc as (Hn & Hl & Hc). rewrite last_in_snoc. unfold in_bucket at 1. rewrite (fle_not_flt _ _ Hv), andb_false_r.
+    rewrite IH; [reflexivity|exact Hc|]. apply flt_fle. eapply fle_flt_trans; eassumption.
+Qed.
+
+Lemma spec_place_snoc count e : is_nan (ex_value e) = false ->
+  forall bs lo exs, chain lo bs ->
+  match lo with Some l => flt l (ex_value e) = true | None => True end ->
+  place_lin count (spec_place_from lo bs count exs) e = spec_place_from lo bs count (exs ++ [e]).
+Proof.
+  intros Hv. induction bs as [|b r IH]; intros lo exs Hc Hlo; cbn [spec_place_from].
+  - rewrite last_in_snoc.
+    assert (Hin : in_bucket lo pinf (ex_value e) = true).
+    { unfold in_bucket. rewrite (fle_pinf _ Hv). destruct lo; [rewrite Hlo|]; reflexivity. }
+    rewrite Hin. assert (Hge : fge pinf (ex_value e) = true) by (unfold fge; apply fle_pinf; exact Hv).
+    destruct (last_in lo pinf exs); cbn [place_lin b_bound]; [rewrite Hge|]; reflexivity.
+  - destruct Hc as (Hn & Hl & Hc). cbn [place_lin b_bound b_cum]. rewrite last_in_snoc.
+    destruct (fge (b_bound b) (ex_value e)) eqn:E.
+    + unfold fge in E. assert (Hin : in_bucket lo (b_bound b) (ex_value e) = true).
+      { unfold in_bucket. rewrite E. destruct lo; [rewrite Hlo|]; reflexivity. }
+      rewrite Hin. rewrite (spec_place_below _ _ _ _ _ Hc E). reflexivity.
+    + unfold fge in E. assert (Hin : in_bucket lo (b_bound b) (ex_value e) = false) by (unfold in_bucket; rewrite E; reflexivity).
+      rewrite Hin. f_equal. apply IH; [exact Hc|]. apply (fle_false_iff _ _ Hv Hn). exact E.
+Qed.
+
+Lemma spec_place_chain count exs : forall bs lo, chain lo bs -> chain lo (spec_place_from lo bs count exs).
+Proof.
+  induction bs as [|b r IH]; intros lo Hc; cbn [spec_place_from].
+  - destruct (last_in lo pinf exs) as [e|] eqn:E; [|exact I]. apply last_in_some in E.
+    cbn [chain b_bound]. split; [reflexivity|]. split; [|exact I].
+    destruct lo as [l|]; [|exact I]. unfold in_bucket in E. apply andb_true_iff in E. destruct E as [E1 E2].
+    eapply flt_fle_trans; eassumption.
+  - destruct Hc as (Hn & Hl & Hc). cbn [chain b_bound]. repeat split; try assumption. apply IH. exact Hc.
+Qed.
+
+Lemma spec_place_nil count : forall bs lo, spec_place_from lo bs count [] = bs.
+Proof. induction bs as [|[b c e] r IH]; intros lo; cbn; [reflexivity|]. rewrite IH. reflexivity. Qed.
+
+Lemma exemplar_placement_lemma count bs exs :
+  chain None bs -> Forall (fun e => is_nan (ex_value e) = false) exs ->
+  fold_left (place_one count) exs bs = spec_place bs count exs.
+Proof.
+  intros Hc. unfold spec_place. induction exs as [|e r IH] using rev_ind; intros Hv.
+  - cbn. symmetry. apply spec_place_nil.
+  - apply Forall_app in Hv. destruct Hv as [Hr He]. inversion He as [|? ? Hev _]; subst.
+    rewrite fold_left_app. cbn [fold_left]. rewrite (IH Hr).
+    rewrite (place_one_lin None); [|apply spec_place_chain; exact Hc].
+    apply spec_place_snoc; [exact Hev|exact Hc|exact I].
+Qed.
+
+(* reading the specification: which exemplar a bucket carries *)
+Lemma spec_place_reading count exs : forall bs lo b_lo b r,
+  spec_place_from lo bs count exs = b_lo ++ b :: r -> (length b_lo < length bs)%nat ->
+  exists b0 lo', nth_error bs (length b_lo) = Some b0 /\ b_bound b = b_bound b0 /\ b_cum b = b_cum b0 /\
+    (lo' = match length b_lo with O => lo | S j => option_map b_bound (nth_error bs j) end) /\
+    b_ex b = match last_in lo' (b_bound b0) exs with Some e => Some e | None => b_ex b0 end.
+Proof.
+  induction bs as [|b0 bs IH]; intros lo b_lo b r H Hl; [cbn in Hl; lia|].
+  cbn [spec_place_from] in H. destruct b_lo as [|x b_lo].
+  - cbn [app] in H. inversion H; subst. exists b0, lo. cbn. repeat split; reflexivity.
+  - cbn [app] in H. inversion H as [[Hx Hrest]]. cbn [length] in Hl.
+    destruct (IH (Some (b_bound b0)) b_lo b r Hrest ltac:(lia)) as (b1 & lo' & N & Bd & Cm & Lo & Ex).
+    exists b1, lo'. cbn [length nth_error]. repeat split; try assumption.
+    rewrite Lo. destruct (length b_lo) eqn:EL; [reflexivity|reflexivity].
 Qed.
